@@ -109,6 +109,7 @@ func shortFn(fn string) string {
 }
 
 var reDigits = regexp.MustCompile(`[0-9]+`)
+var reGoroutine = regexp.MustCompile(`(?m)^goroutine [0-9]+ `)
 
 func panicKind(msg string) string {
 	for _, k := range []string{"index out of range", "slice bounds out of range", "nil pointer dereference", "integer divide by zero",
@@ -270,32 +271,53 @@ func fatalSite(tb string) (what, site, nt string) {
 			nt = strings.TrimPrefix(l, "C12NOTE ")
 		}
 	}
-	i := strings.Index(tb, "goroutine ")
-	if i < 0 {
+	loc := reGoroutine.FindStringIndex(tb) // "goroutine 1 gp=… [running]:" (not the "runtime: goroutine stack exceeds" line)
+	if loc == nil {
 		return what, "?", nt
 	}
+	i := loc[0]
 	count := map[string]int{}
 	var order []string
 	n := 0
+	lib := ""      // package of the topmost frame when it is not a repository function
+	firstRepo := "" // first repository function anywhere in the traceback (the bottom frames are printed even when the middle is elided)
+	frames := 0
 	for _, l := range strings.Split(tb[i:], "\n") {
-		if strings.HasPrefix(l, "\t") || l == "" || strings.HasPrefix(l, "goroutine ") || strings.HasPrefix(l, "...") {
+		if strings.HasPrefix(l, "\t") || l == "" || strings.HasPrefix(l, "...") {
+			continue
+		}
+		if strings.HasPrefix(l, "goroutine ") {
+			if frames > 0 {
+				break // only the crashing goroutine
+			}
 			continue
 		}
 		fn := l
 		if j := strings.LastIndex(fn, "("); j > 0 {
 			fn = fn[:j]
 		}
+		frames++
 		if !strings.HasPrefix(fn, "github.com/ontio/ontology/") {
+			if frames == 1 || (lib == "" && n == 0 && !strings.HasPrefix(fn, "runtime.")) {
+				if !strings.HasPrefix(fn, "runtime.") {
+					lib = shortFn(fn)
+					if k := strings.Index(lib, "."); k > 0 {
+						lib = lib[:k]
+					}
+				}
+			}
 			continue
 		}
 		s := shortFn(fn)
-		if count[s] == 0 {
-			order = append(order, s)
+		if firstRepo == "" {
+			firstRepo = s
 		}
-		count[s]++
-		n++
-		if n >= 24 {
-			break
+		if n < 24 {
+			if count[s] == 0 {
+				order = append(order, s)
+			}
+			count[s]++
+			n++
 		}
 	}
 	if len(order) == 0 {
@@ -311,6 +333,8 @@ func fatalSite(tb string) (what, site, nt string) {
 		}
 		if best != "" {
 			site = best
+		} else if lib != "" { // the recursion is inside a library (reflect.DeepEqual, …): library package < first repository caller
+			site = "lib:" + lib + "<" + firstRepo
 		}
 	}
 	return what, site, nt
@@ -318,12 +342,12 @@ func fatalSite(tb string) (what, site, nt string) {
 
 const workerTimeout = 25 * time.Second
 
-// a transaction that may burn 3*10^7 gas gets the time 3*10^7 opcodes need on a loaded machine
+// a transaction that may burn 10^7 gas gets the time 10^7 opcodes (and the garbage they allocate) need on a loaded machine
 func timeoutFor(line string) time.Duration {
 	f := strings.SplitN(line, " ", 3)
 	if f[0] == "V" && len(f) > 1 {
 		if g, err := strconv.ParseUint(f[1], 10, 64); err == nil && g > 1000000 {
-			return workerTimeout + time.Duration(g/1000000)*3*time.Second
+			return workerTimeout + time.Duration(g/1000000)*8*time.Second
 		}
 	}
 	return workerTimeout
@@ -451,8 +475,8 @@ func main() {
 		Gen:     Gen,
 		Exec:    Exec,
 		Corpus:  corpus(),
-		N:       map[string]int{"quick": 5000, "thorough": 40000},
+		N:       map[string]int{"quick": 4000, "thorough": 40000},
 		Isolate: true,
-		Timeout: 500 * time.Second,
+		Timeout: 1200 * time.Second,
 	})
 }
